@@ -30,6 +30,7 @@ MCAppStep == (AppSplit \/ AppList \/ AppNoSplit \/ AppWrite) /\ Keep /\ Step([a 
 MCRolBegin == UseRoller /\ RolSplit /\ Keep /\ Step([a |-> "RolBegin"])
 MCRolStep == RolList /\ Keep /\ Step([a |-> "Step", p |-> "rol"])
 MCSetHW(h) == DoSetHW(h) /\ Keep /\ Step([a |-> "SetHW", h |-> h])
+MCSetHW2(h1, h2) == DoSetHW2(h1, h2) /\ Keep /\ Step([a |-> "SetHW2", h1 |-> h1, h2 |-> h2])
 MCTogBegin(b) == nTog < MaxTog /\ b # ro /\ TogStore(b) /\ nTog' = nTog + 1 /\ UNCHANGED nApp
                  /\ Step([a |-> "TogBegin", b |-> b])
 MCTogStep == TogNotify /\ Keep /\ Step([a |-> "Step", p |-> "tog"])
@@ -41,6 +42,7 @@ MCRStep(r) == RNext(r) /\ Keep /\ Step([a |-> "Step", p |-> r])
 MCNext ==
   \/ MCAppBegin \/ MCAppStep \/ MCRolBegin \/ MCRolStep
   \/ \E h \in 0..Newest : MCSetHW(h)          \* any step; a stale (lower) value is a no-op
+  \/ \E h1, h2 \in 0..Newest : h1 # h2 /\ (h1 > hw \/ h2 > hw) /\ MCSetHW2(h1, h2)   \* two HW writers at once
   \/ \E b \in BOOLEAN : MCTogBegin(b)
   \/ MCTogStep
   \/ \E r \in Readers, s \in Starts : MCNewReader(r, s)
@@ -52,7 +54,10 @@ MCSpec == MCInit /\ [][MCNext]_mcvars
 MCLiveSpec == MCSpec /\ \A r \in Readers : WF_mcvars(MCRStep(r))
 
 \* every step, as the code performs it, satisfies what C03 demands of a step
-StepsOK == [][P_Step]_mcvars
+HWSetOK == CASE TrackLast /\ last'.a = "SetHW" -> P_HWSet({last'.h})
+             [] TrackLast /\ last'.a = "SetHW2" -> P_HWSet({last'.h1, last'.h2})
+             [] OTHER -> TRUE
+StepsOK == [][P_Step /\ HWSetOK]_mcvars
 
 \* once the HW covers a message, every reader positioned at or before it
 \* eventually receives it (or is told that the read-only log has ended)
